@@ -289,11 +289,33 @@ def build(ex):
     con.raises_only = ['WorkerTerminatedError']
     con.inject = InjectCfg([PTW + '._cleanup'], budget=1, kinds=('wte',), split_store=True)
     lemmas.append((con, None))
+
+    # ------------------------------------------------------------------ L8 the message-level abstraction itself under a terminate
+    # L3 and L6-remote treat send_msg as one atomic step.  That is right only if a terminate landing INSIDE send_msg cannot leave part of a message on the
+    # wire (the front end would take the stump for the start of the next message and never deliver an end marker): the contract of the C10 cone on send_msg
+    # under injection.
+    from . import C10 as _c10
+    saved_abs, saved_ext, saved_spec = dict(ex.abs_classes), dict(ex.ext_models), dict(ex.spec_functions)
+    built = _c10.build(ex)
+    for k_, v_ in saved_abs.items():
+        ex.abs_classes[k_] = v_
+    for k_, v_ in saved_ext.items():
+        ex.ext_models[k_] = v_
+    for k_, v_ in saved_spec.items():
+        ex.spec_functions[k_] = v_
+    for con8, v8 in built:
+        if con8.lid == 'L1i':
+            con8.lid = 'L8'
+            con8.name = con8.name.replace('C10.L1i', 'C06.L8')
+            lemmas.append((con8, v8))
     return lemmas
 
 
 def replay(ob, repo):
     from pyvc.native import run_script
+    if 'C06.L8' in ob.get('lemma', ''):
+        r = run_script('c10_native.py', {'msgs': [['result', 1], ['end', 2]]}, repo, timeout=60)
+        return bool(r.get('violates')), r
     r = run_script('c06_native.py', {'lemma': ob['lemma'].split(' ')[0].split('.')[-1], 'injections': (ob.get('info') or {}).get('injections')}, repo, timeout=150)
     return bool(r.get('violates')), r
 
